@@ -1248,6 +1248,150 @@ fn pool_case(silent_w: u32) -> impl Strategy<Value = PoolCase> {
         })
 }
 
+// ---------------------------------------------------------------------------------------------
+// RetryDnsHandle (the layer the resolver puts around the pool): "attempts - number of attempts
+// before failing"; "does not reattempt queries that fail with a negative response ... only
+// reattempts queries that effectively failed to get a response"; Busy is back-pressure, not a
+// failed attempt.
+
+#[derive(Clone, Copy, Debug, Serialize, Deserialize, PartialEq, Eq)]
+enum Inner {
+    Answer,
+    Timeout,
+    Io,
+    Busy,
+    NoConnections,
+    NxDomain,
+    NoData,
+    Message,
+}
+
+#[derive(Clone, Debug, Serialize, Deserialize)]
+struct RetryCase {
+    attempts: u8,
+    /// what the wrapped handle yields for the 1st, 2nd, ... send (then `Timeout` forever)
+    script: Vec<Inner>,
+}
+
+#[derive(Clone)]
+struct ScriptedHandle {
+    script: Arc<Vec<Inner>>,
+    sends: Arc<Mutex<usize>>,
+}
+
+impl DnsHandle for ScriptedHandle {
+    type Response = Pin<Box<dyn Stream<Item = Result<DnsResponse, NetError>> + Send + Unpin>>;
+    type Runtime = SimRt;
+
+    fn send(&self, request: DnsRequest) -> Self::Response {
+        let i = {
+            let mut n = self.sends.lock().unwrap();
+            *n += 1;
+            *n - 1
+        };
+        let what = self.script.get(i).copied().unwrap_or(Inner::Timeout);
+        let negative = |nx: bool| {
+            let mut nr = NoRecords::new(request.queries.first().cloned().unwrap_or_else(|| Query::new(Name::root(), RecordType::A)), if nx { ResponseCode::NXDomain } else { ResponseCode::NoError });
+            nr.negative_ttl = Some(60);
+            NetError::Dns(DnsError::NoRecordsFound(nr))
+        };
+        let r: Result<DnsResponse, NetError> = match what {
+            Inner::Answer => {
+                let mut m = hickory_proto::op::Message::response(request.metadata.id, hickory_proto::op::OpCode::Query);
+                if let Some(q) = request.queries.first() {
+                    m.add_query(q.clone());
+                    m.add_answer(hickory_proto::rr::Record::from_rdata(
+                        q.name.clone(),
+                        300,
+                        hickory_proto::rr::RData::A(hickory_proto::rr::rdata::A(Ipv4Addr::new(192, 0, 2, (i % 250) as u8 + 1))),
+                    ));
+                }
+                DnsResponse::from_message(m).map_err(NetError::from)
+            }
+            Inner::Timeout => Err(NetError::Timeout),
+            Inner::Io => Err(NetError::from(io::Error::new(io::ErrorKind::ConnectionReset, "reset"))),
+            Inner::Busy => Err(NetError::Busy),
+            Inner::NoConnections => Err(NetError::NoConnections),
+            Inner::NxDomain => Err(negative(true)),
+            Inner::NoData => Err(negative(false)),
+            Inner::Message => Err(NetError::from("something else went wrong")),
+        };
+        Box::pin(futures_util::stream::once(futures_util::future::ready(r)))
+    }
+}
+
+fn retry_case() -> impl Strategy<Value = RetryCase> {
+    let inner = prop_oneof![
+        3 => Just(Inner::Answer),
+        4 => Just(Inner::Timeout),
+        3 => Just(Inner::Io),
+        3 => Just(Inner::Busy),
+        1 => Just(Inner::NoConnections),
+        2 => Just(Inner::NxDomain),
+        1 => Just(Inner::NoData),
+        1 => Just(Inner::Message),
+    ];
+    (0u8..5, vec(inner, 0..=8)).prop_map(|(attempts, script)| RetryCase { attempts, script })
+}
+
+fn run_retry(c: &RetryCase, rec: &mut Rec) -> CaseResult {
+    use hickory_net::xfer::RetryDnsHandle;
+    let sends = Arc::new(Mutex::new(0usize));
+    let inner = ScriptedHandle { script: Arc::new(c.script.clone()), sends: sends.clone() };
+    let handle = RetryDnsHandle::new(inner, c.attempts as usize);
+    let mut req = DnsRequest::from_query(Query::new(Name::from_ascii(QNAMES[0]).unwrap(), RecordType::A), DnsRequestOptions::default());
+    req.metadata.id = 0x4242;
+    let got = futures_executor::block_on(async { handle.send(req).next().await });
+    let sent = *sends.lock().unwrap();
+
+    // the documented behaviour, replayed on the script
+    let at = |i: usize| c.script.get(i).copied().unwrap_or(Inner::Timeout);
+    let mut remaining = c.attempts as usize;
+    let mut i = 0usize;
+    let (want, want_sends) = loop {
+        let o = at(i);
+        i += 1;
+        match o {
+            Inner::Answer => break (o, i),
+            // a negative response is a response; no connection at all cannot get better by asking again
+            Inner::NxDomain | Inner::NoData | Inner::NoConnections => break (o, i),
+            Inner::Busy if remaining > 0 => continue,
+            _ if remaining == 0 => break (o, i),
+            _ => remaining -= 1,
+        }
+        if i > 64 {
+            break (Inner::Busy, i);
+        }
+    };
+    let kind = match &got {
+        Some(Ok(_)) => Inner::Answer,
+        Some(Err(NetError::Timeout)) => Inner::Timeout,
+        Some(Err(NetError::Io(_))) => Inner::Io,
+        Some(Err(NetError::Busy)) => Inner::Busy,
+        Some(Err(NetError::NoConnections)) => Inner::NoConnections,
+        Some(Err(NetError::Dns(DnsError::NoRecordsFound(n)))) if n.response_code == ResponseCode::NXDomain => Inner::NxDomain,
+        Some(Err(NetError::Dns(DnsError::NoRecordsFound(_)))) => Inner::NoData,
+        Some(Err(_)) => Inner::Message,
+        None => vfail!("retry-stream-ended-without-a-result", "attempts {} script {:?}: the response stream ended without an item", c.attempts, c.script),
+    };
+    rec.class(format!("attempts:{}", c.attempts));
+    rec.class(format!("result:{kind:?}"));
+    if want_sends > 1 {
+        rec.nontrivial();
+    }
+    let ctx = format!("attempts {} script {:?}: got {kind:?} after {sent} sends, documented behaviour gives {want:?} after {want_sends} sends", c.attempts, c.script);
+    vensure!(kind == want, if want == Inner::Answer { "retry-gave-up-before-the-answer" } else { "retry-result-differs-from-documented" }, "{ctx}");
+    vensure!(sent == want_sends, if sent > want_sends { "retry-asked-again-after-a-final-result" } else { "retry-stopped-early" }, "{ctx}");
+    if let Some(Ok(resp)) = &got {
+        let ip = resp.answers.first().and_then(|r| match &r.data {
+            hickory_proto::rr::RData::A(a) => Some(a.0.octets()[3]),
+            _ => None,
+        });
+        vensure!(ip == Some(((want_sends - 1) % 250) as u8 + 1), "retry-answer-is-not-the-one-of-the-last-send", "{ctx}; answer {ip:?}");
+    }
+    Ok(())
+}
+
 fn dedup_case() -> impl Strategy<Value = DedupCase> {
     (pool_case(2), 2u8..=5).prop_map(|(base, k)| DedupCase { base, k })
 }
@@ -1267,10 +1411,11 @@ pub fn check() -> Option<Check> {
         let _det = crate::detrand::DetRand::start(crate::core::det_seed(c));
         run_dedup(c, rec)
     });
+    let retry = prop("retry_handle", 100_000, 2_000_000, |_t: Tier| retry_case(), run_retry);
     Some(Check {
         id: "C18",
         level: "exploration",
-        rule: "real NameServerPool::from_config on the simulated runtime in virtual time; 1..4 servers x behaviour {answer, NXDOMAIN trusted/untrusted, TC on UDP + {full, refused, reset, hang} on TCP, silent, io-error at send/recv/connect, reset/close mid-exchange, Busy x n then as before} x latency x {udp+tcp, udp, tcp} x ordering strategy x num_concurrent_reqs {1,2,4} x timeouts x 0x20 x 1..5 callers (identical/distinct, staggered) x optional later lookup; non-trivial = distinct scenario with >= 1 faulty and >= 1 answering server, or >= 2 callers; de-duplication: twin runs (1 caller vs k identical callers on fresh pools) compared exchange by exchange.",
+        rule: "real NameServerPool::from_config on the simulated runtime in virtual time; 1..4 servers x behaviour {answer, NXDOMAIN trusted/untrusted, TC on UDP + {full, refused, reset, hang} on TCP, silent, io-error at send/recv/connect, reset/close mid-exchange, Busy x n then as before} x latency x {udp+tcp, udp, tcp} x ordering strategy x num_concurrent_reqs {1,2,4} x timeouts x 0x20 x 1..5 callers (identical/distinct, staggered) x optional later lookup; non-trivial = distinct scenario with >= 1 faulty and >= 1 answering server, or >= 2 callers; de-duplication: twin runs (1 caller vs k identical callers on fresh pools) compared exchange by exchange. retry_handle: RetryDnsHandle (attempts 0..4) around a scripted handle yielding answer / timeout / io error / Busy / NoConnections / NXDOMAIN / NODATA / other error per send; result and number of sends must be what its documentation says (negative responses and NoConnections are final, Busy is not counted, every other failure costs one attempt).",
         assumptions: vec![
             "liveness is asserted only where the pool's ordering cannot matter: no silent server, at least one reliably answering server, worst-case serial cost below the timeout; a server whose TCP connect hangs is admitted at the cost of connect_timeout (single caller only)",
             "after a TC reply the lookup is TCP-only by design (ConnectionPolicy.disable_udp): a UDP-only healthy server is then not counted as healthy",
@@ -1279,6 +1424,6 @@ pub fn check() -> Option<Check> {
             "an NXDOMAIN from a server trusted for negatives is a legitimate final result",
             "per-server exchange counts of one vs k callers are compared for UserProvidedOrder and RoundRobin only (QueryStatistics starts from random SRTTs)",
         ],
-        subs: vec![faults, slow, dedup],
+        subs: vec![faults, slow, dedup, retry],
     })
 }
